@@ -20,7 +20,9 @@ def history(draw, kinds=("post_fifo", "post_lifo", "next_rtc", "complete_circuit
   ops = []
   nops = draw(st.integers(0, max_ops))
   for k in draw(st.lists(st.sampled_from(kinds), min_size=nops, max_size=nops)):
-    if k in ("post_fifo", "post_lifo", "defer"):
+    if k == "query":
+      ops.append([draw(st.sampled_from(["is_in", "child_state"])), draw(st.integers(-1, spec["n"] - 1))])
+    elif k in ("post_fifo", "post_lifo", "defer"):
       if ops and draw(st.integers(0, 5)) == 0:
         ops.append([k + "_same"])          # the same Event object as the last one made
       else:
@@ -164,6 +166,8 @@ def handler_action(rt, chart, e, i, key, a):
       rt.raw.append(("act", "scribble", a[1]))
   elif k == "is_in":
     chart.is_in(rt.fns[a[1]])
+  elif k == "current_state":
+    chart.current_state()
 
 
 class Observed:
@@ -251,6 +255,11 @@ class RealQueued:
     elif k == "bulk_post":
       for _ in range(op[2]):
         c.post_fifo(self.new_event(op[1]))
+    elif k in ("is_in", "child_state"):
+      # a read-only query made from outside, between steps
+      o.ret = hsmcheck.run_query(c, self.rt, op)
+      self.rt.clear()
+      return o
     elif k == "recall":
       r = c.recall()
       o.ret = r
